@@ -120,8 +120,9 @@ Definition kcmp (m : kmode) (a b : list Z * Z) : Z :=
    SBLK_FULL_LKEY. Returns the comparison result; `None` = prefix inconclusive, full key has to be loaded *)
 Definition sblk_cmp_key (m : kmode) (lk : list Z) (full : bool) (kdata : list Z) (kcomp : Z) : option Z :=
   let ksize := Z.of_nat (length kdata) + (if km_compound m then IW_VNUMSIZE kcomp else 0) in
-  if full || (negb (km_compound m) && (ksize <? Z.of_nat (length lk))) || km_vnum m || km_real m
+  if full || (negb (km_compound m || km_real m) && (ksize <? Z.of_nat (length lk))) || km_vnum m
   then Some (cmp_keys m lk kdata kcomp)
+  else if km_real m then None    (* a truncated decimal text decides nothing about the number: always the complete key *)
   else let r := cmp_keys_prefix m lk kdata kcomp in
        if r =? 0 then None else Some r.
 (* what the code does in the inconclusive case: compare with the full stored key *)
